@@ -19,6 +19,7 @@ class VThread:
     self.enabled = None
     self.wake = None
     self.deadline = None
+    self.stalled = False
     self.exc = None
     self.real = None
     self.steps = 0
@@ -105,6 +106,7 @@ class Sched:
       raise SchedExit()
     vt.state = "running"
     vt.enabled, vt.wake, vt.deadline = None, None, None
+    vt.stalled = False
     return vt
 
   def result(self, res):
@@ -177,6 +179,7 @@ class Sched:
         if r is not None:
           svt, d = r
           svt.wake = self.now + d
+          svt.stalled = True           # held back, not waiting for anything: it still has work to do ("settle" must not count it as idle)
           self.stalls.append((svt.name, self.now, d))
           self.choices.append(("~stall:%s:%s" % (svt.name, d), sorted(x.name for x in runnable)))
           if self.on_stall is not None:
@@ -359,11 +362,35 @@ class RoundRobinPolicy(Policy):
     return runnable[self.k % len(runnable)]
 
 
-class FairSuffix(Policy):
-  """`first` for n steps, then round robin (a fair suffix)"""
+class WeightedRR(Policy):
+  """fair, but not evenly: cycles through the threads giving thread t w[t] consecutive steps (w[t] drawn once per thread from 1..maxw).
+  Every thread that can run keeps getting the processor (weak fairness), yet one thread may complete a whole cycle of its loop between
+  two steps of another - the schedules under which "check, then act on a count another thread can step over" loops never exit."""
 
-  def __init__(self, first, n, time_limit=None):
-    self.first, self.n, self.rr, self.time_limit = first, n, RoundRobinPolicy(), time_limit
+  def __init__(self, rng, maxw=7, time_limit=None):
+    self.rng, self.maxw, self.time_limit = rng, maxw, time_limit
+    self.w, self.cur, self.left = {}, None, 0
+
+  def choose(self, runnable, sched):
+    runnable = sorted(runnable, key=lambda v: v.name)
+    names = [v.name for v in runnable]
+    if self.cur in names and self.left > 0:
+      self.left -= 1
+      return runnable[names.index(self.cur)]
+    # next thread after the current one in name order
+    later = [v for v in runnable if self.cur is None or v.name > self.cur]
+    vt = later[0] if later else runnable[0]
+    if vt.name not in self.w:
+      self.w[vt.name] = self.rng.randint(1, self.maxw)
+    self.cur, self.left = vt.name, self.w[vt.name] - 1
+    return vt
+
+
+class FairSuffix(Policy):
+  """`first` for n steps, then a fair suffix: round robin, or (rr given) another fair policy such as WeightedRR"""
+
+  def __init__(self, first, n, time_limit=None, rr=None):
+    self.first, self.n, self.rr, self.time_limit = first, n, rr or RoundRobinPolicy(), time_limit
 
   def choose(self, runnable, sched):
     return self.first.choose(runnable, sched) if sched.steps < self.n else self.rr.choose(runnable, sched)
@@ -399,7 +426,10 @@ class StallPolicy(Policy):
     cands = [vt for vt in runnable if self.only is None or vt.name.startswith(tuple(self.only))]
     if not cands:
       return None
-    vt = self.rng.choice(sorted(cands, key=lambda v: v.name))
+    cands = sorted(cands, key=lambda v: v.name)
+    # prefer a thread that is about to hand something over to a queue (in the middle of a loop over several receivers)
+    mid = [v for v in cands if v.pending[0] in ("append", "appendleft", "put", "put_nowait")]
+    vt = self.rng.choice(mid) if mid and self.rng.random() < 0.6 else self.rng.choice(cands)
     d = self.rng.choice(self.durations)
     if self.time_limit is not None and sched.now + d >= self.time_limit:
       return None
